@@ -221,6 +221,26 @@ func cmdCheck(args []string) int {
 			specs = append(specs, p.gen(master, i, tier))
 		}
 	}
+	// Regression specs: minimised replays of violations that were rare in the random search
+	// (kept under regress/<id>-*.json) are part of every run of the check, in both tiers.
+	if files, _ := filepath.Glob(filepath.Join(verifRoot, "regress", p.id+"-*.json")); len(files) > 0 {
+		sort.Strings(files)
+		for _, f := range files {
+			b, err := os.ReadFile(f)
+			if err != nil {
+				enumProblems = append(enumProblems, "regress: "+err.Error())
+				continue
+			}
+			rs := &spec.RunSpec{}
+			if err := json.Unmarshal(b, rs); err != nil || rs.Scenario == "" {
+				enumProblems = append(enumProblems, fmt.Sprintf("regress: %s is not a run spec (%v)", f, err))
+				continue
+			}
+			rs.Property = p.id
+			rs.Profile = "regress:" + filepath.Base(f)
+			specs = append(specs, rs)
+		}
+	}
 	var deadline time.Time
 	if v, ok := flags["budget"]; ok {
 		if d, err := time.ParseDuration(v); err == nil {
